@@ -63,10 +63,9 @@ let run_iter l a toks =
     out := r :: !out) toks;
   (List.rev !out, !l, !a, List.rev !fails)
 
-(* the ideal cursor: pos = index of the element the next call yields,
-   last = index of the cursor's current element while it is still there: the last yielded element, or the
-   element inserted behind it by add (the slist iterators make the inserted node the current one, and
-   iter_index reports its index) *)
+(* the ideal cursor (documented semantics): pos = index of the element the next call yields,
+   last = index of the element last returned by next while it is still there; add inserts right behind it
+   and leaves it the current element (replace / remove keep acting on it) *)
 let ideal_iter l toks fails =
   let l = ref l and pos = ref 0 and last = ref None and out = ref [] and fails = ref fails in
   List.iter (fun t ->
@@ -78,7 +77,7 @@ let ideal_iter l toks fails =
       | 'a' -> let f = (match !fails with f :: r -> fails := r; f | [] -> false) in
                if f then "a=ERR_ALLOC" else
                (match !last with
-                | Some k -> l := ins (k + 1) (tok_num t) !l; incr pos; last := Some (k + 1); "a=OK"
+                | Some k -> l := ins (k + 1) (tok_num t) !l; incr pos; "a=OK"
                 | None -> "a=?")
       | 'p' -> (match !last with
                 | Some k -> let v = List.nth !l k in l := rep k (tok_num t) !l; "p=" ^ string_of_n v
@@ -124,7 +123,7 @@ let ideal_zip l1 l2 toks fails =
       | 'a' -> let f = (match !fails with f :: r -> fails := r; f | [] -> false) in
                if f then "a=ERR_ALLOC" else
                (match !last with
-                | Some k -> let (x, y) = tok_pair t in l1 := ins (k + 1) x !l1; l2 := ins (k + 1) y !l2; incr pos; last := Some (k + 1); "a=OK"
+                | Some k -> let (x, y) = tok_pair t in l1 := ins (k + 1) x !l1; l2 := ins (k + 1) y !l2; incr pos; "a=OK"
                 | None -> "a=?")
       | 'p' -> (match !last with
                 | Some k -> let (x, y) = tok_pair t in let v1 = List.nth !l1 k and v2 = List.nth !l2 k in
